@@ -1726,6 +1726,13 @@ class Run:
             # close() in the middle of a transaction that has flushed work (inserts, updates, deletes): the transaction is rolled back
             # and every object leaves the session (the application lets go of all of them: their values are those of the lost
             # transaction)
+            if a2 % 4 == 1:
+                # expunge_all() instead: every object leaves, the session and its transaction go on (and end later)
+                self.session.expunge_all()
+                for e in self.objs:
+                    e["retired"] = True
+                self.bump("probe:expunge_all_inside_transaction")
+                return "expunge_all midtxn"
             self.session.close()
             for e in self.objs:
                 e["retired"] = True
